@@ -539,10 +539,15 @@ func (h *handler1) handleConnect(ctx context.Context, snConnect *snPkts1.Connect
 		return h.snSend(reply)
 	}
 
-	if h.state.Get() == util.StateAwake {
+	// A sleeping client returns to the active state with CONNECT; the MQTT
+	// connection is kept established during the sleep.
+	if state := h.state.Get(); state == util.StateAwake || state == util.StateAsleep {
 		h.setState(util.StateActive)
 		reply := snPkts1.NewConnack(snPkts1.RC_ACCEPTED)
-		return h.snSend(reply)
+		if err := h.snSend(reply); err != nil {
+			return err
+		}
+		return h.flushPktBuffer()
 	}
 
 	// The MQTT-SN specification does not explicitly forbid zero keepalive
@@ -810,13 +815,16 @@ func (h *handler1) handleMqttSn(ctx context.Context, pkt snPkts.Packet) error {
 		if h.state.Get() == util.StateAsleep {
 			// Must be set before snSend otherwise the packets will be queued...
 			h.setState(util.StateAwake)
-			for _, m2 := range h.pktBuffer {
-				if err := h.snSend(m2); err != nil {
-					return err
-				}
+			if err := h.flushPktBuffer(); err != nil {
+				return err
 			}
-			h.pktBuffer = nil
-			return h.snSend(snPkts1.NewPingresp())
+			if err := h.snSend(snPkts1.NewPingresp()); err != nil {
+				return err
+			}
+			// The client goes back to sleep after PINGRESP.
+			// See MQTT-SN specification v. 1.2, chapter 6.14.
+			h.setState(util.StateAsleep)
+			return nil
 		} else {
 			mqPkt := mqPkts.NewControlPacket(mqPkts.Pingreq).(*mqPkts.PingreqPacket)
 			return h.mqttSend(mqPkt)
@@ -913,6 +921,18 @@ func (h *handler1) startSleepPinger(ctx context.Context) context.CancelFunc {
 		}
 	})
 	return cancel
+}
+
+// Send the packets buffered for a sleeping client. The client must not be in
+// the asleep state anymore.
+func (h *handler1) flushPktBuffer() error {
+	for _, m2 := range h.pktBuffer {
+		if err := h.snSend(m2); err != nil {
+			return err
+		}
+	}
+	h.pktBuffer = nil
+	return nil
 }
 
 func (h *handler1) snSend(pkt snPkts.Packet) error {
